@@ -19,8 +19,9 @@ T == File.t
 Ps == File.ps
 Depth == File.depth
 
-VARIABLES mem, wins, hist, done, pend
-vars == <<mem, wins, hist, done, pend>>
+VARIABLES mem, wins, hist, done, pend,
+          kind      \* the kind of operation chosen for the next step ("" = not chosen yet)
+vars == <<mem, wins, hist, done, pend, kind>>
 
 W(x) == [o |-> x[1], l |-> x[2]]
 ReplaceWindow(m, w, bytes) == SubSeq(m, 1, w.o) \o bytes \o SubSeq(m, w.o + w.l + 1, Len(m))
@@ -32,24 +33,36 @@ Init ==
      /\ mem = File.seeds[k].bytes
      /\ wins = <<W(File.seeds[k].a), W(File.seeds[k].b)>>
      /\ hist = <<[e |-> "mem", bytes |-> File.seeds[k].bytes, a |-> File.seeds[k].a, b |-> File.seeds[k].b]>>
-     /\ done = FALSE /\ pend = None
+     /\ done = FALSE /\ pend = None /\ kind = ""
 
 Acts == SeqToSet(File.actions)
 
 (* Choosing an operation is split from applying it, so that a random walk only evaluates the
    semantics of the one operation it takes (TLC's simulator enumerates all successors of a state). *)
+(* The simulator picks uniformly among successor states: the KIND of the next operation is chosen first (one
+   successor per kind), its parameters second -- otherwise writes (targets x candidate values x windows) would
+   crowd out copies, equality queries and scans. *)
+Kinds == {"wr", "cp", "eq", "eqs", "tx"} \cap Acts
+KindEnabled(k) ==
+  CASE k = "wr" -> Len(File.targets) > 0
+    [] k = "eqs" -> wins[2].l <= 10          \* 8 * length evaluations: short windows only
+    [] OTHER -> TRUE
+ChooseKind == pend = None /\ kind = "" /\ \E k \in Kinds : KindEnabled(k) /\ kind' = k
+              /\ UNCHANGED <<mem, wins, hist, done, pend>>
+
 ChooseWrite ==
-  /\ "wr" \in Acts
+  /\ kind = "wr"
   /\ \E win \in {1, 2}, k \in 1..Len(File.targets) :
        LET tg == File.targets[k] IN
        \E x \in (IF tg.st = "Flag" THEN {0, 1} ELSE WriteCandidates(tg.st, tg.w) \cup SeqToSet(tg.extra)) :
           pend' = [e |-> "wr", win |-> win, path |-> tg.path, x |-> x]
-ChooseCopy == "cp" \in Acts /\ \E dst \in {1, 2} : pend' = [e |-> "cp", dst |-> dst]
-ChooseEq == "eq" \in Acts /\ pend' = [e |-> "eq"]
-\* Equals against every single-bit variant of window 2 (only for short windows: 8 * length evaluations)
-ChooseEqScan == "eqs" \in Acts /\ wins[2].l <= 10 /\ pend' = [e |-> "eqs"]
-ChooseText == "tx" \in Acts /\ \E k \in 1..File.nopts : pend' = [e |-> "text", opt |-> k]
-Choose == pend = None /\ (ChooseWrite \/ ChooseCopy \/ ChooseEq \/ ChooseEqScan \/ ChooseText) /\ UNCHANGED <<mem, wins, hist, done>>
+ChooseCopy == kind = "cp" /\ \E dst \in {1, 2} : pend' = [e |-> "cp", dst |-> dst]
+ChooseEq == kind = "eq" /\ pend' = [e |-> "eq"]
+\* Equals against every single-bit variant of window 2
+ChooseEqScan == kind = "eqs" /\ pend' = [e |-> "eqs"]
+ChooseText == kind = "tx" /\ \E k \in 1..File.nopts : pend' = [e |-> "text", opt |-> k]
+Choose == pend = None /\ kind # "" /\ (ChooseWrite \/ ChooseCopy \/ ChooseEq \/ ChooseEqScan \/ ChooseText)
+          /\ kind' = "" /\ UNCHANGED <<mem, wins, hist, done>>
 
 Apply ==
   /\ pend # None
@@ -60,10 +73,10 @@ Apply ==
                [] pend.e = "text" -> mem
   /\ hist' = Append(hist, pend)
   /\ pend' = None
-  /\ UNCHANGED <<wins, done>>
+  /\ UNCHANGED <<wins, done, kind>>
 
 (* the walk is emitted exactly once, by the only action enabled at its end *)
-Finish == ~done /\ PrintT(ToJson(hist)) /\ done' = TRUE /\ UNCHANGED <<mem, wins, hist, pend>>
-Next == IF Len(hist) <= Depth THEN (Choose \/ Apply) ELSE Finish
+Finish == ~done /\ PrintT(ToJson(hist)) /\ done' = TRUE /\ UNCHANGED <<mem, wins, hist, pend, kind>>
+Next == IF Len(hist) <= Depth THEN (ChooseKind \/ Choose \/ Apply) ELSE Finish
 Spec == Init /\ [][Next]_vars
 =============================================================================
